@@ -2236,10 +2236,13 @@ func (fr *frame) beforeReturnAsserts(x *ssa.Return, st *bstate, vals []Val) {
 		if ba.Callee != "return" || !f.e.active(ba.C.Tags) || (ba.Ordinal != 0 && ba.Ordinal != ord) {
 			continue
 		}
-		ba.C.used = true
 		env := fr.specEnv(st.heap, fr.oldHeap, vals)
 		env.addVars(fr.localEnvAtInstr(x, st.heap))
 		v, err := env.evalBool(ba.C.E)
+		if err != nil && ba.Ordinal == 0 && strings.Contains(err.Error(), "unknown identifier") {
+			continue // return#0: the clause applies at the returns where its locals are in scope
+		}
+		ba.C.used = true
 		if err != nil {
 			f.fail("%s: before return: %v", ba.C.Line, err)
 			continue
